@@ -90,6 +90,16 @@ func runPools(o *hlib.Out) {
 		nops := 8 + r.Intn(30)
 		profile := r.Intn(5)
 		run := runPoolTrace(env, r, size, ks, nops, profile)
+		for retry := 0; run.imprecise && retry < 3; retry++ {
+			// verdicts are only taken at harness-confirmed quiescent points: a trace in which a goroutine
+			// turned up that no step accounts for is discarded and replaced
+			stats["discarded-imprecise"]++
+			run = runPoolTrace(env, r, size, ks, nops, profile)
+		}
+		if run.imprecise {
+			stats["discarded-imprecise"]++
+			continue
+		}
 		nontrivial := run.nWindow > 0 || run.nFail > 0 || run.nKill > 0 || run.nLate > 0
 		stats["steps"] += len(run.steps)
 		stats["window"] += run.nWindow
@@ -98,6 +108,11 @@ func runPools(o *hlib.Out) {
 		stats["kill-in-hand"] += run.nInHandKill
 		stats["late-append"] += run.nLate
 		emit(o, "pool", nontrivial, run.caseTerm(), run.viol, map[string]interface{}{"size": size, "keyspace": ks, "ops": run.ops})
+	}
+	if stats["discarded-imprecise"]*10 > n {
+		// losing track now and then is scheduling noise; losing it this often means the pool starts
+		// goroutines the harness has no step for
+		o.Violate(-1, "pool-untrackable", "", fmt.Sprintf("%d of %d pool traces had goroutines parked at the trace points that no harness step accounts for", stats["discarded-imprecise"], n), nil)
 	}
 	o.Extra["pool_stats"] = stats
 }
